@@ -163,6 +163,7 @@ class World:
     self.calls = []
     self.by_tid = {}
     self.originals = {}
+    self.raise_next = None
     self.objs = {}
     self.holders = {}
     self.specs = {s['name']: s for s in specs}
@@ -179,6 +180,9 @@ class World:
         self.by_tid.setdefault(ts.tid, []).append(rec)
       else:
         self.calls.append(rec)
+      if self.raise_next and name == self.raise_next:
+        self.raise_next = None
+        raise RuntimeError('injected body fault')
       return 'ret-' + name
     for s in specs:
       spec = dict(s)
@@ -244,7 +248,10 @@ class World:
           callee(*args, **kwargs)
     except Exception as e:  # pylint: disable=broad-except
       exc = e
-    rec = self.calls[n0] if len(self.calls) > n0 else None
+    # gin may have called other probes (producers) first: the record of this
+    # call is the newest one made by the probe itself.
+    mine = [r for r in self.calls[n0:] if r[0] == op['probe']]
+    rec = mine[-1] if mine else None
     del self.calls[n0:]
     return exc, rec
 
